@@ -271,6 +271,87 @@ func TestVerifC02(t *testing.T) {
 			rep.Count("panics", len(env.Panics))
 		}
 	}
+	// a deployment that keeps user names as typed (disable_username_normalization): "Alice.Mixed" and "alice.mixed" are
+	// two accounts; the certificate names the one that authenticated, byte for byte, and the other is refused
+	{
+		mixed, lower := "Alice.Mixed", "alice.mixed"
+		env, err := verifNewEnv(verifStateOpts{Name: "c02-no-normalisation", Users: map[string]string{mixed: "pw-Mixed", lower: "pw-lower"},
+			AllowedCerts: []string{"password"}, AllowedWebUI: []string{"password"}, DisableNormalize: true, Ed25519: true})
+		if err != nil {
+			t.Fatal(err)
+		}
+		trust, err := verifPublishedTrust(env)
+		if err != nil {
+			t.Fatal(err)
+		}
+		for _, who := range []string{mixed, lower} {
+			pw := map[string]string{mixed: "pw-Mixed", lower: "pw-lower"}[who]
+			cookie, lr := verifLogin(env, who, pw)
+			if cookie == "" {
+				rep.Inconc("case-sensitive deployment: login failed for %q: %d", who, lr.Code)
+				continue
+			}
+			otherName := lower
+			if who == lower {
+				otherName = mixed
+			}
+			for ki, k := range keys {
+				if !verifThorough() && ki > 2 {
+					break
+				}
+				for _, ct := range []string{"ssh", "x509", "x509-kubernetes"} {
+					kd := k.PKIX
+					if ct == "ssh" {
+						kd = k.SSH
+					}
+					for _, entry := range []string{"cookie", "basic"} {
+						for _, target := range []string{who, otherName} {
+							q := verifCertReq(target, ct, kd, "1h", nil)
+							if entry == "cookie" {
+								q.Cookies = map[string]string{"auth_cookie": cookie}
+							} else {
+								q.UseBasic, q.BasicUser, q.BasicPass = true, who, pw
+							}
+							resp := env.Do(q.Build())
+							cs := c02Case{Config: "no-normalisation", LoginAs: who, User: who, Target: target, CertType: ct, Key: k.Name, Status: resp.Code, Entry: entry}
+							rep.Eval(fmt.Sprintf("no-normalisation|%s|%s|%s|self=%v|%s|%d", who, k.Name, ct, target == who, entry, resp.Code/100))
+							rep.Count("case_sensitive_requests", 1)
+							if target != who {
+								if resp.Code == 200 || len(verifSignedMaterial(resp)) > 0 {
+									rep.Violate("C02/cross-user-issued/"+ct+"/case-sensitive-deployment", "certificate issued on behalf of the account that differs only in case", cs)
+								}
+								continue
+							}
+							if resp.Code != 200 {
+								continue
+							}
+							var defects []string
+							if ct == "ssh" {
+								if cert, err := verifParseSSHCert(resp.Body); err != nil {
+									defects = []string{"unparsable SSH certificate: " + err.Error()}
+								} else {
+									sub, _, _, _, _ := ssh.ParseAuthorizedKey([]byte(k.SSH))
+									defects = verifCheckSSHCert(cert, who, sub, trust, nil, time.Now())
+									cs.Principal = strings.Join(cert.ValidPrincipals, ",")
+								}
+							} else if cert, err := verifParseX509PEM(resp.Body); err != nil {
+								defects = []string{"unparsable X.509 certificate: " + err.Error()}
+							} else {
+								defects = verifCheckX509UserCert(cert, who, k.Pub, trust)
+								cs.Principal = cert.Subject.CommonName
+							}
+							rep.Count("case_sensitive_issued", 1)
+							if len(defects) > 0 {
+								cs.Defects = defects
+								rep.Violate("C02/bad-certificate/"+ct+"/case-sensitive-deployment/"+firstWord(defects[0]), strings.Join(defects, "; "), cs)
+							}
+						}
+					}
+				}
+			}
+		}
+		rep.Floor("case_sensitive_issued", 12)
+	}
 	rep.Floor("issued_ssh", 20)
 	rep.Floor("issued_x509", 20)
 	rep.Floor("issued_x509-kubernetes", 20)
